@@ -1879,7 +1879,7 @@ impl<T: Transport, E: UtpEnvironment> UtpStreamStarter<T, E> {
             },
 
             socket: socket.clone(),
-            recovery: Recovery::default(),
+            recovery: Recovery::with_handshake_ack(seq_nr - 1, remote_window),
             #[cfg(feature = "per-connection-metrics")]
             metrics: crate::metrics::PerConnectionMetrics::new(socket.bind_addr(), remote),
             #[cfg(librqbit_utp_verif)]
